@@ -115,6 +115,12 @@ def conc (A : ADB) : DB :=
     accounts_metadata_seq := A.acctMetaSeq, moves_seq := A.movesSeq, logs_seq := A.logsSeq }
 
 theorem conc_empty : conc {} = {} := rfl
+@[simp] theorem conc_txs (A : ADB) : (conc A).transactions = A.txs.map ATx.row := rfl
+@[simp] theorem conc_txMeta (A : ADB) : (conc A).transactions_metadata = A.txMeta.map ATxMeta.row := rfl
+@[simp] theorem conc_accounts (A : ADB) : (conc A).accounts = A.accounts.map AAcct.row := rfl
+@[simp] theorem conc_acctMeta (A : ADB) : (conc A).accounts_metadata = A.acctMeta.map AAcctMeta.row := rfl
+@[simp] theorem conc_moves (A : ADB) : (conc A).moves = A.moves.map AMove.row := rfl
+@[simp] theorem conc_logs (A : ADB) : (conc A).logs = A.logs := rfl
 
 -- ---------------------------------------------------------------- accounts
 
@@ -204,5 +210,197 @@ theorem delete_account_metadata_conc (A : ADB) (l a k : String) (d : Val) :
     delete_account_metadata (conc A) (.text l) (.text a) (.text k) d = conc (aDeleteAccountMetadata A l a k d) := by
   simp only [delete_account_metadata, aDeleteAccountMetadata]
   exact update_accounts_conc A _ _ _ _ (by intro r; simp [AAcct.row]) (by intro r; simp [AAcct.row])
+
+-- ---------------------------------------------------------------- transactions
+
+def aTxInsHist (A : ADB) (r : ATx) : ADB :=
+  { A with txMeta := A.txMeta ++ [{ seq := A.txMetaSeq, ledger := r.ledger, txSeq := r.seq, revision := .int 1, date := .ts r.ts, md := r.md }],
+           txMetaSeq := A.txMetaSeq + 1 }
+
+def nextRevT (hs : List ATxMeta) (s : Nat) : Val :=
+  col (selectFirst hs (fun h => Val.bool (h.txSeq == s)) [{ get := fun h => h.revision, desc := true }]) (fun h => Val.add h.revision (.int 1))
+
+def aTxUpdHist (A : ADB) (r : ATx) : ADB :=
+  { A with txMeta := A.txMeta ++ [{ seq := A.txMetaSeq, ledger := r.ledger, txSeq := r.seq, revision := nextRevT A.txMeta r.seq, date := r.updatedAt,
+                                     md := r.md }],
+           txMetaSeq := A.txMetaSeq + 1 }
+
+def aUpdateTxs (A : ADB) (p : ATx → Bool) (u : ATx → ATx) : ADB :=
+  ((A.txs.filter p).map u).foldl aTxUpdHist { A with txs := A.txs.map (fun r => if p r then u r else r) }
+
+def txKey (l : String) (id : Int) (r : ATx) : Bool := r.id == id && r.ledger == l
+
+def aRevertTransaction (A : ADB) (l : String) (id : Int) (d : Val) : ADB :=
+  aUpdateTxs A (txKey l id) (fun r => { r with revertedAt := d })
+def aUpdateTransactionMetadata (A : ADB) (l : String) (id : Int) (m : Kvs) (d : Val) : ADB :=
+  aUpdateTxs A (txKey l id) (fun r => { r with md := J.concatKvs r.md m, updatedAt := d })
+def aDeleteTransactionMetadata (A : ADB) (l : String) (id : Int) (k : String) (d : Val) : ADB :=
+  aUpdateTxs A (txKey l id) (fun r => { r with md := J.removeKey k r.md, updatedAt := d })
+
+theorem insert_tx_hist_conc (A : ADB) (r : ATx) :
+    insert_transaction_metadata_history (conc A) r.row = conc (aTxInsHist A r) := by
+  simp [insert_transaction_metadata_history, insert_transactions_metadata, Sql.insertRow, tbl_transactions_metadata, conc, aTxInsHist, ATxMeta.row, ATx.row]
+
+theorem update_tx_hist_conc (A : ADB) (r : ATx) :
+    update_transaction_metadata_history (conc A) r.row = conc (aTxUpdHist A r) := by
+  simp [update_transaction_metadata_history, insert_transactions_metadata, Sql.insertRow, tbl_transactions_metadata, conc, aTxUpdHist, ATxMeta.row, ATx.row,
+    selectFirst_map, nextRevT]
+
+theorem fire_tx_hist_conc (rows : List ATx) (A : ADB) :
+    Sql.fireEach update_transaction_metadata_history (conc A) (rows.map ATx.row) = conc (rows.foldl aTxUpdHist A) := by
+  induction rows generalizing A with
+  | nil => rfl
+  | cons r rs ih => simp only [Sql.fireEach, List.map_cons, List.foldl_cons, update_tx_hist_conc] at ih ⊢; exact ih _
+
+theorem update_transactions_conc (A : ADB) (pred : TransactionsRow → Val) (upd : TransactionsRow → TransactionsRow) (p : ATx → Bool) (u : ATx → ATx)
+    (hp : ∀ r, truthy (pred r.row) = p r) (hu : ∀ r, upd r.row = (u r).row) :
+    update_transactions (conc A) pred upd = conc (aUpdateTxs A p u) := by
+  have h1 : (Sql.updateWhere tbl_transactions (conc A) pred upd).1 = conc { A with txs := A.txs.map (fun r => if p r then u r else r) } := by
+    simp only [Sql.updateWhere, tbl_transactions, conc, List.map_map]
+    congr 1
+    apply List.map_congr_left
+    intro r _
+    by_cases h : p r = true <;> simp [hp, hu, h]
+  have h2 : (Sql.updateWhere tbl_transactions (conc A) pred upd).2 = ((A.txs.filter p).map u).map ATx.row := by
+    simp only [Sql.updateWhere, tbl_transactions, conc, List.filter_map, List.map_map]
+    have : ((fun r => truthy (pred r)) ∘ ATx.row) = p := by funext r; exact hp r
+    rw [this]
+    apply List.map_congr_left
+    intro r _; exact hu r
+  simp only [update_transactions, h1, h2, fire_tx_hist_conc, aUpdateTxs]
+
+theorem revert_transaction_conc (A : ADB) (l : String) (id : Int) (d : Val) :
+    revert_transaction (conc A) (.text l) (.int id) d = conc (aRevertTransaction A l id d) := by
+  simp only [revert_transaction, aRevertTransaction]
+  exact update_transactions_conc A _ _ _ _ (by intro r; simp [ATx.row, txKey]) (by intro r; simp [ATx.row])
+
+theorem update_transaction_metadata_conc (A : ADB) (l : String) (id : Int) (m : Kvs) (d : Val) :
+    update_transaction_metadata (conc A) (.text l) (.int id) (.json (.obj m)) d = conc (aUpdateTransactionMetadata A l id m d) := by
+  simp only [update_transaction_metadata, aUpdateTransactionMetadata]
+  exact update_transactions_conc A _ _ _ _ (by intro r; simp [ATx.row, txKey]) (by intro r; simp [ATx.row])
+
+theorem delete_transaction_metadata_conc (A : ADB) (l : String) (id : Int) (k : String) (d : Val) :
+    delete_transaction_metadata (conc A) (.text l) (.int id) (.text k) d = conc (aDeleteTransactionMetadata A l id k d) := by
+  simp only [delete_transaction_metadata, aDeleteTransactionMetadata]
+  exact update_transactions_conc A _ _ _ _ (by intro r; simp [ATx.row, txKey]) (by intro r; simp [ATx.row])
+
+-- ---------------------------------------------------------------- moves
+
+def moveSel (acc : Nat) (x : String) (r : AMove) : Bool := r.acctSeq == acc && r.asset == x
+
+/-- `select … from moves where accounts_seq = … and asset = … order by seq desc limit 1` -/
+def aLastMove (ms : List AMove) (acc : Nat) (x : String) : Option AMove :=
+  selectFirst ms (fun r => Val.bool (moveSel acc x r)) [{ get := fun r => Val.int r.seq, desc := true }]
+
+/-- `… and effective_date <= e order by effective_date desc, seq desc limit 1` -/
+def aLastEffMove (ms : List AMove) (acc : Nat) (x : String) (e : Int) : Option AMove :=
+  selectFirst ms (fun r => Val.bool (moveSel acc x r && decide (r.eff ≤ e)))
+    [{ get := fun r => Val.ts r.eff, desc := true }, { get := fun r => Val.int r.seq, desc := true }]
+
+def bumpEff (src : Bool) (amt : Int) (r : AMove) : AMove :=
+  { r with pcevIn := r.pcevIn + (if src then 0 else amt), pcevOut := r.pcevOut + (if src then amt else 0) }
+
+def aInsertMove (A : ADB) (txSeq : Val) (l : String) (ins : Val) (eff : Int) (a x : String) (amt : Int) (src ex : Bool) (acc : Nat) : ADB :=
+  let pcv : Int × Int :=
+    if ex then (match aLastMove A.moves acc x with | some r => (r.pcvIn, r.pcvOut) | none => (0, 0)) else (0, 0)
+  let pcev : Int × Int :=
+    if ex then
+      (match aLastMove A.moves acc x with
+       | none => (0, 0)
+       | some _ => (match aLastEffMove A.moves acc x eff with | some r => (r.pcevIn, r.pcevOut) | none => (0, 0)))
+    else (0, 0)
+  let new : AMove :=
+    { seq := A.movesSeq, ledger := l, txSeq := txSeq, acctSeq := acc, account := a, asset := x, amount := amt, ins := ins, eff := eff,
+      pcvIn := if src then pcv.1 else pcv.1 + amt, pcvOut := if src then pcv.2 + amt else pcv.2,
+      pcevIn := if src then pcev.1 else pcev.1 + amt, pcevOut := if src then pcev.2 + amt else pcev.2, isSource := src }
+  let ms := A.moves ++ [new]
+  let ms := if ex then
+      (ms.map (fun r => if moveSel acc x r && decide (eff < r.eff) then bumpEff src amt r else r)).map
+        (fun r => if moveSel acc x r && r.eff == eff && decide ((A.movesSeq : Int) < r.seq) then bumpEff src amt r else r)
+    else ms
+  { A with moves := ms, movesSeq := A.movesSeq + 1 }
+
+theorem update_moves_conc (A : ADB) (pred : MovesRow → Val) (upd : MovesRow → MovesRow) (p : AMove → Bool) (u : AMove → AMove)
+    (hp : ∀ r, truthy (pred r.row) = p r) (hu : ∀ r, upd r.row = (u r).row) :
+    update_moves (conc A) pred upd = conc { A with moves := A.moves.map (fun r => if p r then u r else r) } := by
+  simp only [update_moves, Sql.updateWhere, tbl_moves, conc, List.map_map]
+  congr 1
+  apply List.map_congr_left
+  intro r _
+  by_cases h : p r = true <;> simp [hp, hu, h]
+
+theorem accounts_find_conc (A : ADB) (l a : String) :
+    selectFirst (conc A).accounts (fun r => Val.and (Val.eq r.ledger (.text l)) (Val.eq r.address (.text a))) [] =
+      (A.accounts.find? (acctKey l a)).map AAcct.row := by
+  simp only [conc, selectFirst_nokeys, List.find?_map]
+  congr 2
+  funext r
+  simp [AAcct.row, acctKey]
+
+def exVal (ex : Bool) : Val := if ex then .bool true else .null
+
+theorem lastMove_conc (A : ADB) (acc : Nat) (x : String) :
+    selectFirst (conc A).moves (fun r => Val.and (Val.eq r.accounts_seq (.int acc)) (Val.eq r.asset (.text x))) [{ get := fun r => r.seq, desc := true }] =
+      (aLastMove A.moves acc x).map AMove.row := by
+  simp only [conc, selectFirst_map, aLastMove, List.map_cons, List.map_nil]
+  congr 1
+  apply selectFirst_congr
+  intro r _
+  simp [AMove.row, moveSel]
+
+theorem lastEffMove_conc (A : ADB) (acc : Nat) (x : String) (e : Int) :
+    selectFirst (conc A).moves (fun r => Val.and (Val.and (Val.eq r.accounts_seq (.int acc)) (Val.eq r.asset (.text x))) (Val.le r.effective_date (.ts e)))
+        [{ get := fun r => r.effective_date, desc := true }, { get := fun r => r.seq, desc := true }] =
+      (aLastEffMove A.moves acc x e).map AMove.row := by
+  simp only [conc, selectFirst_map, aLastEffMove, List.map_cons, List.map_nil]
+  congr 1
+  apply selectFirst_congr
+  intro r _
+  simp [AMove.row, moveSel]
+
+theorem insert_moves_conc (A : ADB) (m : AMove) :
+    insert_moves (conc A) { m.row with seq := .null } =
+      (conc { A with moves := A.moves ++ [{ m with seq := A.movesSeq }], movesSeq := A.movesSeq + 1 }, ({ m with seq := A.movesSeq } : AMove).row) := by
+  simp [insert_moves, Sql.insertRow, tbl_moves, conc, AMove.row]
+
+theorem insert_move_conc (A : ADB) (txSeq : Val) (l : String) (ins : Val) (eff : Int) (a x : String) (amt : Int) (src ex : Bool) (r0 : AAcct)
+    (hacc : A.accounts.find? (acctKey l a) = some r0) :
+    insert_move (conc A) txSeq (.text l) ins (.ts eff) (.text a) (.text x) (.int amt) (.bool src) (exVal ex) =
+      conc (aInsertMove A txSeq l ins eff a x amt src ex r0.seq) := by
+  have eacc := accounts_find_conc A l a
+  rw [hacc] at eacc
+  have e1 := lastMove_conc A r0.seq x
+  have e2 := lastEffMove_conc A r0.seq x eff
+  simp only [conc] at eacc e1 e2
+  have ins_ := fun (i o ei eo : Int) => insert_moves_conc A { seq := 0, ledger := l, txSeq := txSeq, acctSeq := r0.seq, account := a, asset := x, amount := amt, ins := ins, eff := eff, pcvIn := i, pcvOut := o, pcevIn := ei, pcevOut := eo, isSource := src }
+  simp only [AMove.row] at ins_
+  have upd := fun (A1 : ADB) (s : Bool) =>
+    update_moves_conc A1
+      (fun r => Val.and (Val.and (Val.eq r.accounts_seq (.int r0.seq)) (Val.eq r.asset (.text x))) (Val.gt r.effective_date (.ts eff)))
+      (fun r => { r with post_commit_effective_volumes := Val.vol (Val.add (Val.field "inputs" r.post_commit_effective_volumes) (.int (if s then 0 else amt)))
+                                                                  (Val.add (Val.field "outputs" r.post_commit_effective_volumes) (.int (if s then amt else 0))) })
+      (fun r => moveSel r0.seq x r && decide (eff < r.eff)) (bumpEff s amt)
+      (by intro r; simp [AMove.row, moveSel]) (by intro r; simp [AMove.row, bumpEff])
+  have upd2 := fun (A1 : ADB) (s : Bool) =>
+    update_moves_conc A1
+      (fun r => Val.and (Val.and (Val.and (Val.eq r.accounts_seq (.int r0.seq)) (Val.eq r.asset (.text x))) (Val.eq r.effective_date (.ts eff))) (Val.gt r.seq (.int A.movesSeq)))
+      (fun r => { r with post_commit_effective_volumes := Val.vol (Val.add (Val.field "inputs" r.post_commit_effective_volumes) (.int (if s then 0 else amt)))
+                                                                  (Val.add (Val.field "outputs" r.post_commit_effective_volumes) (.int (if s then amt else 0))) })
+      (fun r => moveSel r0.seq x r && r.eff == eff && decide ((A.movesSeq : Int) < r.seq)) (bumpEff s amt)
+      (by intro r; simp [AMove.row, moveSel]) (by intro r; simp [AMove.row, bumpEff])
+  cases ex
+  · cases src <;>
+      simp [insert_move, eacc, AAcct.row, exVal, aInsertMove, ins_]
+  · cases src
+    · have u1 := fun A1 => upd A1 false
+      have u2 := fun A1 => upd2 A1 false
+      simp only [Bool.false_eq_true, if_false] at u1 u2
+      cases h1 : aLastMove A.moves r0.seq x <;> cases h2 : aLastEffMove A.moves r0.seq x eff <;> rw [h1] at e1 <;> rw [h2] at e2 <;>
+        simp [insert_move, eacc, e1, e2, AAcct.row, exVal, aInsertMove, h1, h2, ins_, AMove.row, u1, u2]
+    · have u1 := fun A1 => upd A1 true
+      have u2 := fun A1 => upd2 A1 true
+      simp only [if_true] at u1 u2
+      cases h1 : aLastMove A.moves r0.seq x <;> cases h2 : aLastEffMove A.moves r0.seq x eff <;> rw [h1] at e1 <;> rw [h2] at e2 <;>
+        simp [insert_move, eacc, e1, e2, AAcct.row, exVal, aInsertMove, h1, h2, ins_, AMove.row, u1, u2]
 
 end StoreSql
